@@ -78,7 +78,7 @@ def gen_program(rng, profile, index=None):
         fn = 'ensure_aw'
         if target == 'running' and rng.random() < 0.3:
             fn = 'run_aw_threadsafe'
-        callers.append({'fn': fn, 'kind': _w(rng, [('coro', 5), ('future', 2), ('task', 2)]),
+        callers.append({'fn': fn, 'kind': _w(rng, [('coro', 5), ('future', 2), ('task', 2), ('object', 2)]),
                         'out': _w(rng, [('return', 7), ('raise', 3), ('raise_base', 1), ('raise_cancelled', 1)]),
                         'delay': _w(rng, [(0.0, 4), (Q, 3), (4 * Q, 2), (1.0, 1)]),
                         'start': _w(rng, [(0.0, 6), (Q, 2), (4 * Q, 1)])})
@@ -88,11 +88,21 @@ def gen_program(rng, profile, index=None):
         t2 = 'running' if target == 'idle' else _w(rng, [('idle', 1), ('running', 1)])
         c2 = []
         for _ in range(_w(rng, [(1, 3), (2, 3)])):
-            c2.append({'fn': 'ensure_aw', 'kind': _w(rng, [('coro', 5), ('future', 2), ('task', 2)]),
+            c2.append({'fn': 'ensure_aw', 'kind': _w(rng, [('coro', 5), ('future', 2), ('task', 2), ('object', 2)]),
                        'out': _w(rng, [('return', 7), ('raise', 3), ('raise_base', 1), ('raise_cancelled', 1)]),
                        'delay': _w(rng, [(0.0, 4), (Q, 3), (4 * Q, 2)]), 'start': _w(rng, [(0.0, 6), (Q, 2)])})
         prog['phase2'] = {'target': t2, 'callers': c2}
     return prog
+
+
+class AwaitableObject:
+    """A plain object with __await__ (legal under Awaitable[T]): not a coroutine, not a future."""
+
+    def __init__(self, coro):
+        self.coro = coro
+
+    def __await__(self):
+        return self.coro.__await__()
 
 
 class CallerState:
@@ -173,6 +183,8 @@ class CrossWorld:
         kind = C.spec['kind']
         if kind == 'coro':
             return self.body(C)
+        if kind == 'object':
+            return AwaitableObject(self.body(C))
         if kind == 'task':
             return loop.create_task(self.body(C))
         fut = loop.create_future()
@@ -190,6 +202,8 @@ class CrossWorld:
             aw = self.make_aw(C, own_loop)
         elif spec['kind'] == 'coro':
             aw = self.body(C)
+        elif spec['kind'] == 'object':
+            aw = AwaitableObject(self.body(C))
         else:
             aw = self.aws[C.i]
         fn = getattr(self.aa, spec['fn'])
@@ -204,6 +218,8 @@ class CrossWorld:
             C.outcome = ('exc', e)
             if spec['kind'] == 'coro' and not C.started:
                 aw.close()
+            if spec['kind'] == 'object' and not C.started:
+                aw.coro.close()
         C.state = 'done'
         C.t_done = sch.clock
         sch.log('ret', C.i, C.outcome[0])
@@ -232,7 +248,7 @@ class CrossWorld:
             if self.target is None:
                 self.target = SimLoop()
             for C in cs:
-                if C.spec['kind'] != 'coro':
+                if C.spec['kind'] not in ('coro', 'object'):
                     self.aws[C.i] = self.make_aw(C, self.target)
             if tstate == 'closed':
                 self.target.close()
